@@ -33,6 +33,7 @@ type Gen struct {
 	globalMaybeNil map[string]bool
 	infoOf    map[*types.Package]*types.Info
 	alias     map[string]map[string]string // fnKey -> contract name -> current name (renamed variables)
+	storedLate map[string]bool
 }
 
 type locKind int
@@ -1203,6 +1204,11 @@ func (t *fnTrans) unop(in *ssa.UnOp) {
 			t.setVal(in, sel(t.h.get(t.cur, hv), l.base))
 			return
 		}
+		if g, ok := in.X.(*ssa.Global); ok && g.Name() == "init$guard" {
+			// a package initializer runs its body exactly once: the guard is false on entry
+			t.setVal(in, "false")
+			return
+		}
 		v := t.setVal(in, t.load(l))
 		t.assumeLoaded(v, in.Type())
 		if l.kind == locGlobal && !t.g.mutableGlobals[l.hv] && t.sortOf(in.Type()) == "Int" {
@@ -1412,6 +1418,7 @@ func (t *fnTrans) typeAssert(in *ssa.TypeAssert) {
 	t.oblige("safe.assert", "assert:"+t.describe(in.X)+".("+t.g.typeKey(in.AssertedType)+")", in.Pos(), ok, "type assertion may panic")
 	r := t.setVal(in, v)
 	t.assumeLoaded(r, in.Type())
+	t.assumeTypeInv(r, in.Type())
 }
 
 func (t *fnTrans) index(in *ssa.Index) {
@@ -1443,7 +1450,7 @@ func (t *fnTrans) indexAddr(in *ssa.IndexAddr) {
 		t.locs[in] = &loc{kind: locElem, base: "(sl_arr " + x + ")", idx: idx, hv: hv, typ: u.Elem(), baseVal: in.X}
 		if _, isSt := t.isStruct(u.Elem()); isSt {
 			// slice of structs: element address is a struct ref
-			ea := t.c.declareFun("eaddr", []string{"Int", "Int"}, "Int")
+			ea := t.c.eaddrFun()
 			term := "(" + ea + " (sl_arr " + x + ") " + idx + ")"
 			t.vals[in] = []string{term}
 			t.locs[in] = &loc{kind: locCell, base: term, typ: u.Elem(), baseVal: in.X}
@@ -1460,7 +1467,7 @@ func (t *fnTrans) indexAddr(in *ssa.IndexAddr) {
 		t.vals[in] = []string{t.c.declare(t.c.fresh(in.Name()), "Int")}
 		t.locs[in] = &loc{kind: locElem, base: base, idx: i, hv: hv, typ: at.Elem(), baseVal: in.X}
 		if _, isSt := t.isStruct(at.Elem()); isSt {
-			ea := t.c.declareFun("eaddr", []string{"Int", "Int"}, "Int")
+			ea := t.c.eaddrFun()
 			term := "(" + ea + " " + base + " " + i + ")"
 			t.vals[in] = []string{term}
 			t.locs[in] = &loc{kind: locCell, base: term, typ: at.Elem(), baseVal: in.X}
@@ -1877,6 +1884,11 @@ func (t *fnTrans) visibleVars() map[string]string {
 	for _, p := range t.fn.Params {
 		if s := t.sortOf(p.Type()); s == "Int" || s == "Bool" {
 			out[p.Name()] = t.val(p)
+		} else if s == "Iface" {
+			// interface-typed inputs: dynamic type tag and scalar payload (for replays)
+			out[p.Name()+".tag"] = "(itag " + t.val(p) + ")"
+			out[p.Name()+".int"] = "(iint " + t.val(p) + ")"
+			out[p.Name()+".bool"] = "(ibool " + t.val(p) + ")"
 		}
 	}
 	e := &evalCtx{t: t, fn: t.fn, st: t.cur, old: t.entry, binds: map[string]sval{}, locals: true}
